@@ -157,7 +157,17 @@ func (c c09Case) source(pkg string) string {
 	}
 	if c.ctx == ctxGenericSelf && c.second == nil {
 		b.WriteString("\ntype W =\n| Wrap of U<int>\n| Other\n\n")
-		b.WriteString("let f (u:U<int>) =\n" + c.matchLines("u", "  "))
+		// the same union matched at ANOTHER instantiation first: what is emitted for the match under
+		// test (case labels U_C[int]) must not be taken from it
+		b.WriteString("let pre (u:U<string>) =\n  match u with\n")
+		for i := 0; i < c.n; i++ {
+			if c.payload[i] {
+				fmt.Fprintf(&b, "  | %s _ -> %d\n", c09Names[i], i)
+			} else {
+				fmt.Fprintf(&b, "  | %s -> %d\n", c09Names[i], i)
+			}
+		}
+		b.WriteString("\nlet f (u:U<int>) =\n" + c.matchLines("u", "  "))
 		b.WriteString("\nlet Run () =\n")
 		for i := 0; i < c.n; i++ {
 			if c.payload[i] {
@@ -485,6 +495,17 @@ func runC09(r *core.Run, tier string) {
 			}
 			pick[idx] = true
 			progs = append(progs, gobatch.Prog{Name: fmt.Sprintf("p%d", idx), Files: map[string]string{"gen_m.go": results[idx].gen}})
+		}
+		// the generic-union contexts are only decided by running (Go accepts a case label of another
+		// instantiation): the first 60 accepted programs of each are always executed
+		perCtxRun := map[int]int{}
+		for _, idx := range accepted {
+			cx := cases[idx].ctx
+			if (cx == ctxGroupLater || cx == ctxGenericSelf) && !pick[idx] && perCtxRun[cx] < 60 {
+				perCtxRun[cx]++
+				pick[idx] = true
+				progs = append(progs, gobatch.Prog{Name: fmt.Sprintf("p%d", idx), Files: map[string]string{"gen_m.go": results[idx].gen}})
+			}
 		}
 		nb := (len(progs) + 119) / 120
 		bres := make([]*gobatch.Result, nb)
